@@ -16,9 +16,18 @@ BOOLEANS = ['True', 'False']
 CONSTANTS = ['PI', 'INF', 'NAN', 'E']
 
 
+def tla_string(c):
+    return '"' + c.replace('\\', '\\\\').replace('"', '\\"').replace('\t', '\\t').replace('\n', '\\n').replace('\r', '\\r') + '"'
+
+
+def gen_module(sigma):
+    """The character set goes into a generated module: TLC's cfg parser does not unescape \\" and \\\\ in strings."""
+    return ('---- MODULE MC_LexGen ----\nEXTENDS MC_Lex\nGenSigma == {%s}\n====\n' % ', '.join(tla_string(c) for c in sorted(sigma)))
+
+
 def make_cfg(sigma, maxlen, pieces=None, maxpieces=0, given=False):
     L = ['SPECIFICATION Spec', 'CHECK_DEADLOCK FALSE',
-         'CONSTANT Sigma = %s' % grammar._val(sorted(sigma)),
+         'CONSTANT Sigma <- GenSigma',
          'CONSTANT MaxLen = %d' % maxlen,
          'CONSTANT Pieces <- %s' % (pieces or 'NoPieces'),
          'CONSTANT MaxPieces = %d' % maxpieces,
@@ -33,11 +42,13 @@ def make_cfg(sigma, maxlen, pieces=None, maxpieces=0, given=False):
 def enumerate_texts(sigma, maxlen, pieces=None, maxpieces=0, cache=True, timeout=3600):
     """{text: {'greedy': toks or None, 'others': [toks...], 'adj': bool}}, tlc stats"""
     cfg = make_cfg(sigma, maxlen, pieces, maxpieces)
+    gen = gen_module(sigma)
     h = hashlib.sha256()
     for f in ('HplLex.tla', 'MC_Lex.tla'):
         with open(os.path.join(tlc.SPEC, f), 'rb') as fh:
             h.update(fh.read())
     h.update(cfg.encode())
+    h.update(gen.encode())
     cdir = os.path.join(tlc.BUILD, 'lang')
     os.makedirs(cdir, exist_ok=True)
     cpath = os.path.join(cdir, 'lex-' + h.hexdigest()[:20] + '.json')
@@ -45,7 +56,7 @@ def enumerate_texts(sigma, maxlen, pieces=None, maxpieces=0, cache=True, timeout
         with open(cpath) as f:
             d = json.load(f)
         return d['texts'], d['res']
-    res = tlc.run_model('MC_Lex', cfg_text=cfg, workers=1, timeout=timeout)
+    res = tlc.run_model('MC_LexGen', cfg_text=cfg, workers=1, timeout=timeout, extra_files={'MC_LexGen.tla': gen})
     if not res['ok']:
         raise tlc.MachineryError('lexer machine failed (a model-level theorem of HplLex is violated or TLC crashed):\n' + res['out'][-3000:])
     texts = {}
